@@ -329,3 +329,47 @@ def _decoded(text, bname):
     except Exception:
         pass
     return text
+
+
+# ---------------------------------------------------------------------------
+# correspondence unit: Request.issue_instant_ok on TEXTS against Model/RequestWindow.v window_text
+# ---------------------------------------------------------------------------
+class _Msg(object):
+    def __init__(self, text):
+        self.issue_instant = text
+
+
+AHEAD = {z: {t: off for (zz, t), off in EXPECT_OFFSET.items() if zz == z} for z in ZONES}
+
+
+def unit_window_text(ctx, quick):
+    """the real Request.issue_instant_ok (one definition for all request classes: Gen/RequestTable.v) on IssueInstant
+    texts - every spelling time_util.str_to_time takes or refuses - under each zone and both seasons, against window_text
+    (now, zone, allowance, text): the model does not read the zone"""
+    from core import cstr, cz
+    from saml2_tophat.request import Request
+    cases = []
+    for zone in ZONES:
+        for now in (NOW, WINTER):
+            with Zone(zone), ZoneClock(now):
+                for a in ((0, 60) if quick else (0, 60, 300)):
+                    w = 86400 + a
+                    texts = []
+                    for lab, off in [("now", 0)] + offsets(w, 0):
+                        if abs(off) == w:
+                            continue                                   # exactly at an end: left open (ASSUMPTIONS)
+                        texts.append(g.instant(now + off))
+                        if lab.endswith(("-1s", "-3600s", "-32400s")):
+                            texts += [g.instant(now + off, "frac"), g.instant(now + off, "noZ")]
+                    texts += ["", "yesterday", g.instant(now, "date"), g.instant(now, "offset"), g.instant(now).lower(),
+                              g.instant(now).replace("T", " "), g.instant(now) + "\n", "2026-02-30T10:00:00Z", "2026-9-21T14:13:20Z"]
+                    for text in texts:
+                        rq = Request(None, [], timeslack=a)
+                        rq.message = _Msg(text)
+                        got = call(rq.issue_instant_ok)
+                        if not isinstance(got, (bool, Exn)):
+                            got = Exn("NotABool:%r" % (got,))
+                        cases.append(dict(id=len(cases), coq="(%s, %s, %s, %s)" % (cz(now), cz(AHEAD[zone][now]), cz(a), cstr(text)),
+                                          impl=got, show=dict(zone=zone, now=now, allowance=a, text=text)))
+                        ctx.count("window-text:%s" % ("true" if got is True else "false" if got is False else got.name))
+    return ctx.correspond("issue_instant_ok_texts", "Model.TimeUtil Model.RequestWindow", "run_window_text", "(Z * Z * Z * str)", cases, shard=400)
